@@ -87,6 +87,77 @@ func c02RawRoundTrip(ci aead.Cipher, n int) string {
 	return ""
 }
 
+var c02BufferFates = []string{"left-alone", "overwritten-with-another-secret", "wiped", "one-byte-changed"}
+
+// c02KeyBufferReused builds a cipher and a cookie store from a buffer holding K1, seals one value, lets the
+// caller do something else with that buffer, and asks whether "the same secret" still means K1: what was
+// sealed before still opens under the cipher that sealed it, what it seals afterwards opens under an
+// independent K1 cipher, and neither opens under K2.
+func c02KeyBufferReused(after string, k1c, k2c aead.Cipher) (what string) {
+	defer func() {
+		if r := recover(); r != nil {
+			what = fmt.Sprintf("panicked: %v", r)
+		}
+	}()
+	buf := append([]byte(nil), harness.CookieSecret...)
+	ci, err := aead.NewMiscreantCipher(buf)
+	if err != nil {
+		return err.Error()
+	}
+	buf2 := append([]byte(nil), harness.CookieSecret...)
+	store, err := sessions.NewCookieStore(harness.CookieName, sessions.CreateMiscreantCookieCipher(buf2))
+	if err != nil {
+		return err.Error()
+	}
+	val := c02Values()[2]
+	before, err := ci.Marshal(val.Val)
+	if err != nil {
+		return err.Error()
+	}
+	for _, b := range [][]byte{buf, buf2} {
+		switch after {
+		case "overwritten-with-another-secret":
+			copy(b, harness.OtherSecret)
+		case "wiped":
+			for i := range b {
+				b[i] = 0
+			}
+		case "one-byte-changed":
+			b[len(b)-1] ^= 0x40
+		}
+	}
+	opens := func(c aead.Cipher, sealed string) bool {
+		t := val.New()
+		return c.Unmarshal(sealed, t) == nil && reflect.DeepEqual(t, val.Val)
+	}
+	if !opens(ci, before) {
+		return "a value no longer opens under the cipher that sealed it once the caller has reused the buffer the secret was passed in (" + after + ")"
+	}
+	later, err := ci.Marshal(val.Val)
+	if err != nil {
+		return err.Error()
+	}
+	if !opens(k1c, later) || !opens(k1c, before) {
+		return "a value sealed by a cipher built with K1 does not open under another cipher built with K1 after the caller's buffer was " + after
+	}
+	if opens(k2c, later) {
+		return "a value sealed by a cipher built with K1 opens under K2 after the caller's buffer was " + after
+	}
+	zero, _ := aead.NewMiscreantCipher(make([]byte, len(buf)))
+	if zero != nil && opens(zero, later) {
+		return "a value sealed by a cipher built with K1 opens under the all-zero secret after the caller's buffer was " + after
+	}
+	// the cookie store's cipher
+	req, _ := http.NewRequest("GET", "http://a.sso.test/", nil)
+	req.Header.Set("Cookie", harness.CookieName+"="+before)
+	if s, ok := val.Val.(*sessions.SessionState); ok {
+		if got, err := store.LoadSession(req); err != nil || !reflect.DeepEqual(got, s) {
+			return fmt.Sprintf("a cookie store built with K1 no longer loads a K1 cookie after the caller's buffer was %s (err=%v)", after, err)
+		}
+	}
+	return ""
+}
+
 func c02Run(c *fw.Ctx) {
 	k1, k2 := harness.CookieSecret, harness.OtherSecret
 	c1, err := aead.NewMiscreantCipher(k1)
@@ -136,6 +207,12 @@ func c02Run(c *fw.Ctx) {
 		}
 		b, _ := json.Marshal(c.Replay.Detail)
 		json.Unmarshal(b, &d)
+		if d.API == "key-buffer" {
+			if what := c02KeyBufferReused(d.Value, c1, c2); what != "" {
+				c.Res.Violate(fw.Violation{Property: "C02", Key: c.Replay.Key, What: what})
+			}
+			return
+		}
 		if d.API == "Encrypt/Decrypt" {
 			var n int
 			fmt.Sscanf(d.Value, "raw-%d-bytes", &n)
@@ -171,6 +248,15 @@ func c02Run(c *fw.Ctx) {
 			} else {
 				c.Res.Count("positive_raw_round_trips", 1)
 			}
+		}
+	}
+	// the secret is the one the cipher was built with: the caller reuses or wipes its buffer afterwards
+	for _, after := range c02BufferFates {
+		c.Res.Execs++
+		if what := c02KeyBufferReused(after, c1, c2); what != "" {
+			viol("key-buffer-"+after, what, "K1", "key-buffer", after, "")
+		} else {
+			c.Res.Count("positive_key_buffer_fates", 1)
 		}
 	}
 	for _, v := range c02Values() {
